@@ -159,6 +159,12 @@ func checkC17(p *Prog, r *Report) {
 	r.Trusted = []string{"cosmos-sdk v0.47.12", "gogoproto generated Unmarshal", "go/ssa"}
 	kp := func(rule, rest string) string { return rule + ":C17:" + rest }
 
+	// a panic inside the SDK on a call the module makes every block: auth's GetModuleAccount panics when a plain account sits at the
+	// burn module's address — the precondition (nobody can create one) is the blocked-address set (shared with C07)
+	if modC, ok := p.ConstVal(Rel("x/burn/types"), "ModuleName"); ok {
+		checkBurnAccountBlocked(p, r, kp, modC)
+	}
+
 	entries, kinds := c17Entries(p)
 	r.Floor("entry-points", len(entries), 14*3+14+12+3+8)
 	reach := p.ReachFrom(entries, func(f *ssa.Function) bool { return InModule(f) && !p.IsGenerated(f) })
